@@ -15,12 +15,12 @@ def register(claim):
     claim("C03", "proof",
           "parse_encode: for every well-formed block sequence (any number of events/blocks/fragments incl. empty ones, status words on either "
           "side, full-width fields) and every selection, the model of the C++ parser returns exactly the intended records; merge_spec for "
-          "T/Q merging; unpack(pack)=id. Model tied to the working-tree C++ (native build) and to the real Python reader on generated files. The Python framing and batch loop are translated from raw_io.py on every run (Gen/RawPy) and proved equal to the file / reader models (Props/RawPyTie).",
+          "T/Q merging; unpack(pack)=id. Model tied to the working-tree C++ (native build) and to the real Python reader on generated files. The Python framing and batch loop are translated from raw_io.py on every run (Gen/RawPy) and proved equal to the file / reader models (Props/RawPyTie). The C++ parser itself (every function of RawBinaryParser reachable from arrays(): cursor primitives, read_event / read_sub_detector / read_ROS / read_ROB, fill_digi, the event loop) is translated from raw_io.cc on every run (Gen/RawCpp) and proved equal to the hand-written model (Props/RawCppTie::parse_eq).",
           K + NAT + "hand-written model Model/RawParser.lean + Spec/RawFormat.lean; constants/masks extracted from the C++ on every run (Props/RawTie); "
           "Python framing (_preprocess_file/_read_batch) is modelled on the bytes of the file (Model/RawFile.lean) and proved at file level (Props/C03File: any name/tag length, batch size, completion order); "
           "on corrupted block chains the model is stricter than the lazily walking reader; file I/O, np.frombuffer and the awkward assembly are compared, not proved.",
           "Lean 4 round-trip theorem (decode (encode x) = x by induction over the nested format) on a hand-written parser model; "
-          "file-level theorem over the byte encoder; three-way correspondence model / native working-tree build / intended decode; byte-level model vs real reader on well-formed and framing-corrupted files; delayed-completion ordering on the real reader; long streams (> 2^16 fragments / words / events) on the native parser against the intended decode; AST translator (cursor program of _preprocess_file, _read_batch step, arrays loop) + tie theorems", "DESIGN.md §6 C03")
+          "file-level theorem over the byte encoder; three-way correspondence model / native working-tree build / intended decode; byte-level model vs real reader on well-formed and framing-corrupted files; delayed-completion ordering on the real reader; long streams (> 2^16 fragments / words / events) on the native parser against the intended decode; AST translator (cursor program of _preprocess_file, _read_batch step, arrays loop) + tie theorems; strict C++ statement translator for raw_io.cc + tie theorems (translated = model)", "DESIGN.md §6 C03")
     claim("C04", "proof",
           "Termination of the batch loop within N+2 iterations for every n_blocks in {-1} U N and batch size >= 1; result = decode of the first "
           "min(n, N) blocks for every batch size, every completion order of the pool and every earlier cursor position (hence prefix, "
@@ -84,17 +84,17 @@ def register(claim):
     claim("C15", "proof",
           "For every word list and selection the parser model returns arrays or an error: never an out-of-bounds access, never out of fuel "
           "(loop bound length+1 always suffices), and a successful decode consumed the buffer; the same definition satisfies parse_encode (C03). "
-          "Per-buffer agreement (outcome class and arrays) with the ASan+UBSan native build of the working tree on mutated / truncated / random buffers.",
+          "Per-buffer agreement (outcome class and arrays) with the ASan+UBSan native build of the working tree on mutated / truncated / random buffers. The parser the theorems speak about is the translation of raw_io.cc of this run (Gen/RawCpp, Props/RawCppTie: readCpp_eq … parse_eq), bounds checks included: removing a require() breaks skipCpp_eq / readNCpp_eq.",
           K + NAT + "memory safety of std::vector/std::map internals and the pybind11/numpy glue is outside the model; the installed binary is not the subject.",
-          "Lean 4 safety + termination theorems on a model with explicit memory accesses; sanitizer-instrumented native build as correspondence and oracle",
+          "Lean 4 safety + termination theorems on a model with explicit memory accesses; sanitizer-instrumented native build as correspondence and oracle; strict C++ statement translator for raw_io.cc + tie theorems; source-based coverage of raw_io.cc reached by the generated buffers reported in the evidence",
           "DESIGN.md §6 C15")
     claim("C16", "proof",
           "Index expression translated from root_io.hh: idx = max(max+1)/2+min, symmetric, in range, lower triangle bijective; constructor accepts iff "
           "n(n+1)/2 <= flat; expansion M[i][j]=M[j][i]=packed[idx] for any content; fullDim(n(n+1)/2)=n and the factory's pair is always accepted. "
-          "Native working-tree reader, installed reader, Python factory (incl. call histories) and all fixture matrix members compared.",
+          "Native working-tree reader, installed reader, Python factory (incl. call histories) and all fixture matrix members compared. The matrix reader (constructor check, read loop, index expression) is translated from root_io.hh on every run (Gen/RootCpp) and proved equal to the model (Props/RootCppTie: symAcceptsCpp_eq, symExpandCpp_eq).",
           K + NAT + "dimensions > 46340 (C++ int overflow) unmodelled; IEEE sqrt exact on perfect squares < 2^53.",
           "Lean 4 theorems on translated index expression + hand-written reader model; native ASan build and installed reader as correspondence; "
-          "independent-decode oracle on fixtures; content patterns (zero diagonal, one-hot, all zero) so that the expansion cannot depend on the values", "DESIGN.md §6 C16")
+          "independent-decode oracle on fixtures; content patterns (zero diagonal, one-hot, all zero) so that the expansion cannot depend on the values; strict C++ statement translator for root_io.hh + tie theorems", "DESIGN.md §6 C16")
     claim("C17", "proof",
           "Over all histories of table updates / process starts / loads / first uses / (interrupted) checks / forced clears: after a complete check no "
           "cache is older than its table; fresh caches untouched; force clears all; interruption only removes files. Content level: for atomic "
@@ -108,11 +108,11 @@ def register(claim):
           "(incl. empty events), every header variant (new-class tag with name vs class reference, any byte count with the mask bit, referenced bit) the "
           "reader returns the objects in order and stops right after them, entry by entry; processDigi_fields. Model tied three-way on synthetic streams "
           "(Lean / native working-tree build / installed extension with stock readers), by framing every real fixture basket, and member by member "
-          "against uproot's own deserialisation obtained without pybes3. Bes3CgemClusterColReader: round trip for both class layouts, referenced and unreferenced clusters, version threading across events (Props/C01Cgem). The Python side (digi lifting loops, dispatch, branch / matrix-member tables, factory priorities, factory forms) is translated from root_io.py on every run (Gen/RootPy) and proved equal to the models (Props/RootTie).",
+          "against uproot's own deserialisation obtained without pybes3. Bes3CgemClusterColReader: round trip for both class layouts, referenced and unreferenced clusters, version threading across events (Props/C01Cgem). The Python side (digi lifting loops, dispatch, branch / matrix-member tables, factory priorities, factory forms) is translated from root_io.py on every run (Gen/RootPy) and proved equal to the models (Props/RootTie). The read bodies of Bes3TObjArrayReader and Bes3CgemClusterColReader and the BinaryBuffer primitives they use are translated from root_io.hh / uproot-custom.hh on every run (Gen/RootCpp) and proved equal to the models (Props/RootCppTie).",
           K + NAT + "stock uproot-custom element readers enter as a contract (read exactly their own encoding); decompression/basket I/O and awkward record "
           "construction are outside the model; the independent decoder cannot read multimap, TRecExtTrack and the streamer-less CGEM cluster class (listed in the evidence).",
           "Lean 4 round-trip theorems on a hand-written byte-level parser model; three-way synthetic correspondence; framing-mode model on real baskets; "
-          "independent-decoder oracle (translation-validation strength for member values on real files); AST translator for the Python logic of root_io.py + tie theorems; synthetic CGEM cluster streams incl. referenced clusters", "DESIGN.md §6 C01")
+          "independent-decoder oracle (translation-validation strength for member values on real files); AST translator for the Python logic of root_io.py + tie theorems; synthetic CGEM cluster streams incl. referenced clusters; strict C++ statement translator for root_io.hh + tie theorems", "DESIGN.md §6 C01")
     claim("C02", "proof",
           "finalArray_eq_slice: for every basket layout (empty baskets anywhere) and every non-empty interval the model of AsCustom.final_array returns the "
           "slice of the full read; partition invariance; chunks of any size concatenate to the whole; per-basket reader outputs re-based by concatenation "
@@ -126,9 +126,9 @@ def register(claim):
           "rebuild (levels t) (flat t) = t for every uniform-depth layout (any depth, empty lists); array-mode pivot change = per-track single-helix result in the "
           "input's nesting and order (hence independent of the other tracks and of the nesting); ufunc attributes act per track; permutation equivariance. "
           "Real helix_awk operations compared per track with helix_obj over generated layouts (depth 1-4, empty events, sliced/indexed views, records), "
-          "pivot forms, error matrices, repeated calls (inputs not modified) and per-track isclose verdicts. The per-track pivot change and the per-track properties are the translated source (Props/HelixTie, Props/HelixTie2: object path = array path = model).",
+          "pivot forms, error matrices, repeated calls (inputs not modified) and per-track isclose verdicts. The per-track pivot change and the per-track properties are the translated source (Props/HelixTie, Props/HelixTie2: object path = array path = model). The awkward-side wiring (_extract_index, _flat_to_numpy, _awk_change_pivot, the re-nesting loops, the pivot broadcast) is translated on every run (Gen/AwkPy); Props/AwkTie proves that extract -> flatten -> per-track map -> re-nest is the element-wise map of the model, and that the nesting is restored.",
           K + "awkward's own layout transformations are third-party; masked/union layouts are not generated; float results at 1e-9 relative.",
-          "Lean 4 theorems on nested arrays (dependent depth) + single-track model; Lean driver vs _extract_index/flatten; per-track oracle; AST translators for helix.py + tie theorems; exact half-turn inputs; views re-ordered after construction", "DESIGN.md §6 C07")
+          "Lean 4 theorems on nested arrays (dependent depth) + single-track model; Lean driver vs _extract_index/flatten; per-track oracle; AST translators for helix.py + tie theorems; exact half-turn inputs; views re-ordered after construction; AST translator for the awkward-side wiring + tie theorems", "DESIGN.md §6 C07")
     claim("C09", "proof",
           "Every MDC accessor returns the published row (kernel reads the loader global; loader globals equal the npz columns chunk by chunk; same for all EMC "
           "columns incl. corner points); wire ends differ in z; stereo sign = sign of the exact cross product of the end points (doubles decoded exactly), "
